@@ -65,7 +65,23 @@ def build_stream(cfg, twin_noise_only=False, cls=None, seed=None):
     s = sv.DataStream(sample_rate=rate, fch1=cfg['fch1'], ascending=cfg['asc'], t_start=cfg['t_start'],
                       seed=cfg['seed'] if seed is None else seed)
     add_sources(s, cfg, twin_noise_only)
+    _shadow(s, rate)
     return s
+
+
+def _shadow(s, rate):
+    """Another stream at ANOTHER sample rate lives in the same process and makes a request of the same size immediately
+    before every request of the stream under test (two receivers fed in lock-step): whatever the library keeps per
+    request size outside the stream object is then always the other stream's."""
+    import setigen.voltage as sv
+    d = sv.DataStream(sample_rate=rate * 3.0 + 7.0, fch1=0.0, ascending=True, t_start=0.125, seed=2)
+    d.add_constant_signal(f_start=rate * 0.1, drift_rate=0.0, level=1.0)
+    orig = s.get_samples
+
+    def get_samples(num_samples):
+        d.get_samples(num_samples)
+        return orig(num_samples)
+    s.get_samples = get_samples
 
 
 def add_sources(s, cfg, twin_noise_only=False):
@@ -358,6 +374,7 @@ def case_antenna(cfg):
                        t_start=cfg['t_start'], seed=cfg['seed'])
         for s, pc in zip(a.streams, pcfg):
             add_sources(s, pc)
+            _shadow(s, cfg['rate'])
         return a
 
     def build_twins():
